@@ -596,7 +596,7 @@ Fixpoint wc_obs_go (s : wc_state) (chans : list wc_chan) (sched : list wc_item) 
   match sched with
   | [] => []
   | it :: r =>
-      let '(s1, acts) := wc_step s it in
+      let '(s1, acts) := wc_hstep s it in
       let chans1 := add_chans chans acts in
       (ev_code s1 (wc_item_tid it) acts, mark_code acts,
        100 * Z.of_nat (length chans1) + Z.of_nat (length (filter (wc_closedb (wc_sh s1)) chans1)))
